@@ -3,7 +3,9 @@
 Theorems (coq/Properties/C05.v): the merged container shows the overlay view of the source
 (C05_merge_view); every later patch container gives the same view on the merged container as on
 the source, also for patches produced by operation lists (C05_merge_continues,
-C05_patch_transplant); the merged user block continues the chain (C05_merged_chain); the source
+C05_patch_transplant), and the patch container written by the same operations on the merged record is
+identical to the one written on the source (C05_patch_container_identical); the merged container is
+what the create walk of the code builds (C05_build_preorder); the merged user block continues the chain (C05_merged_chain); the source
 state is returned unchanged (C05_merge_frame); merging is refused for a writable record or a
 stub-containing set (C05_merge_refused).
 
@@ -455,7 +457,7 @@ def compare_model(case, o, m, exp_row, src_rows) -> List[Dict[str, Any]]:
     flags_s, flags_m, same_patch, v_sp, v_mt, v_mo = fol
     mview, sview, v_sp, v_mt, v_mo = map(norm_view, (mview, sview, v_sp, v_mt, v_mo))
     if built != "T" or same_patch != "T" or mview != sview or not (v_sp == v_mt == v_mo) or flags_s != flags_m:
-        D.append({"kind": "model-internal", "what": "model contradicts its own theorems (build_eq / merge_view / patch_transplant)"})
+        D.append({"kind": "model-internal", "what": "model contradicts its own theorems (build_eq / build_preorder / merge_view / patch_transplant / patch_container_identical)"})
     if _strs(o["src_view"]) != sview:
         D.append({"kind": "source-view", "what": "view of the source differs from the model (C01 correspondence)",
                   "model": sview[:4], "impl": o["src_view"][:4]})
@@ -655,6 +657,10 @@ def run(ctx: vlib.Ctx):
         ctx.notes.append(f"cases not evaluated: {unusable}")
 
     xc = vlib.coq_crosscheck("c05", mcases, mres, "c05", max_cases=ctx.budget(8, 30))
+    if not xc["ok"] and "inconsistent assumptions" in xc.get("log", ""):
+        # another check recompiled a library between our build and the cross-check: rebuild, once more
+        vlib.ensure_built(need=["Properties/C05.vo"])
+        xc = vlib.coq_crosscheck("c05", mcases, mres, "c05", max_cases=ctx.budget(8, 30))
     cov["evaluations"] = len(mcases) + len(rcases)
     cov["distinct_nontrivial"] = len(nontrivial)
     cov["rule"] = ("C01 generators (fixed patterns, targeted shapes replace-then-touch / create below deleted ancestors / copy into own "
